@@ -19,7 +19,7 @@ def budget(tier):
 
 
 def gen_cases(rng, n, tier):
-    cfgs = [c for c in B.all_cfgs('blog') if not c['null_delete']]
+    cfgs = [c for c in B.all_cfgs('blog') + B.all_cfgs('inh')[::2] if not c['null_delete']]
     return B.gen_cases_default(rng, n, tier, cfgs=cfgs)
 
 
